@@ -623,4 +623,6 @@ def _harnesses(tier, seed):
     hs += C02_expr.harnesses()
     from specs import C02_read
     hs += C02_read.harnesses()
+    from specs import C02_header
+    hs += C02_header.harnesses()
     return hs
